@@ -48,8 +48,7 @@ def wmutex(ctx):
                    "" if ok else str([(e[3], e[2].mode) for e in acq]), fn=f.label, inst=f.qname)
 
 
-def publish(ctx):
-    rid = "C12.publish"
+def publish(ctx, rid="C12.publish"):
     ctx.rule(rid, "insertions: node constructed and its own links stored before the single publishing store; a front "
              "insertion into a non-empty list links the old head first", floor=16)
     fb = ctx.fb
